@@ -11,6 +11,7 @@ from .. import fe
 from .c03 import OPS, CMP
 from .c04 import LOGIC
 from .c05 import IDF, UNOPS
+from .c04 import parse_dump
 
 # operand: (static-type tag, canonical value, how it is written)
 VALS = [("i", "I:5"), ("i", "I:0"), ("i", "I:-3"), ("i", "N:i0"), ("d", "D:4004000000000000"), ("d", "N:d0"), ("b", "B:1"), ("b", "N:b0"),
@@ -63,7 +64,12 @@ class C02(ProgCheck):
             "library on every operator (both spellings) x every pair of operand classes: acceptance, static type, kind of "
             "run-time outcome (value / INV_EXPRESSION / accessor error / boolean null); family gen-member: the receiver labels "
             "extracted from member_*.cpp (driver word gmemb) against EXC_PARSE_MEMB_NOT_IMPL_S of the library for the six "
-            "member methods x every operand class.")
+            "member methods x every operand class. (h) family safety-loops: `$`-qualified and plain variables x {one for loop, "
+            "nested loops over the same / another variable, forall iterators} x how each loop is left (normal end, break, return, "
+            "runtime error) x where the constraint is probed (inside, after the inner loop, after the loops, in later units; "
+            "statically and through a function declared integer that returns a string) through prog, the C API and the "
+            "statement-at-a-time path: every unit's outcome and the safety bit of every symbol dumped after every unit against "
+            "the flag machine of Model/Safety.lean (driver word sflag).")
 
     def node_case(self, cid, model, expr_src, setup, meta):
         ops = ["new 0", "prog 0 " + hx(IDF)] + setup + ["expr 0 " + hx(expr_src + ";")]
@@ -104,6 +110,15 @@ class C02(ProgCheck):
                 n += 1
                 out.append(self.node_case("%s%d" % (prefix, n), "gmemb %s %s" % (name, st1), call, s1,
                                           {"family": "gen-member", "st": [st1], "member": name}))
+        # value argument of put / insert / concat on a string / bytes receiver (Gen/MemberSigs.lean `*_arg0`)
+        for name, call in (("put", "x.put(1, y)"), ("insert", "x.insert(1, y)"), ("concat", "x.concat(y)")):
+            for rv in ("S:6162", "R:6162"):
+                for (t2, v2) in VALS:
+                    e1, s1, st1 = operand(rv, "x", "var")
+                    e2, s2, st2 = operand(v2, "y", "var")
+                    n += 1
+                    out.append(self.node_case("%s%d" % (prefix, n), "gmarg %s %s %s" % (name, st1, st2), call, s1 + s2,
+                                              {"family": "gen-member-arg", "st": [st1, st2], "member": name}))
         return out
 
     ACC_CODES = ("7", "8", "9", "12", "13")     # EXC_RT_NOT_NUMERIC / INTEGER / BOOLEAN / LITERAL / TABCHAR
@@ -118,6 +133,22 @@ class C02(ProgCheck):
             return      # the twin case of the binop / unop family reports it
         ev = iraw.split("|")[-1]
         mout = m.get("model") or ""
+        if c.meta.get("family") == "gen-member-arg":
+            mg = re.match(r"gen arg=(\S+) harg=(\S+)", mout)
+            if not mg:
+                return self.record_violation("unparsable answer of the generated-table interpreter", c, ev, m)
+            self.distinct.add((c.model_line, c.meta["expr"]))
+            st["member_arg"] = st.get("member_arg", 0) + 1
+            argtype = ev.startswith("perr 18 ")
+            st["member_argtype"] = st.get("member_argtype", 0) + (1 if argtype else 0)
+            if (mg.group(1) == "argtype") != (mg.group(2) == "18"):
+                return self.record_violation("`%s` (receiver %s, argument %s): member_%s.cpp now says %s, the model the theorems are proved about "
+                                             "says %s; the library answers %s" % (c.meta["expr"], c.meta["st"][0], c.meta["st"][1], c.meta["member"],
+                                                                                 mg.group(1), mg.group(2), ev), c, ev, m)
+            if argtype != (mg.group(1) == "argtype") or (mg.group(1) == "ok" and ev.startswith("perr")):
+                return self.record_violation("`%s` (receiver %s, argument %s): the library answers %s; the argument test extracted from member_%s.cpp "
+                                             "says %s" % (c.meta["expr"], c.meta["st"][0], c.meta["st"][1], ev, c.meta["member"], mg.group(1)), c, ev, m)
+            return
         if c.meta.get("family") == "gen-member":
             mg = re.match(r"gen recv=(\S+) disp=(\S+) hrecv=(\S+)", mout)
             if not mg:
@@ -220,6 +251,138 @@ class C02(ProgCheck):
         self.stats["search"] = {"matrix_cases": len(cases), "violations": len(self.violations)}
         return None
 
+    # ------------------------------------------------------------------ C02R3: the safety flag around loops, every exit route
+    SF_NAMES = ["$K", "I", "J", "E"]
+    SF_H = 'function h() return integer is begin return "s"; end;'
+
+    def safety_scenarios(self):
+        """-> [(tag, [unit text], 'token trace')]: `$`-variable / plain variable x {single loop, nested loops over the same variable,
+        over another variable} x how each loop is left (normal end, break, return, runtime error) x where the constraint is
+        probed (inside the inner loop, after it inside the outer body, after the loops, in a later unit), plus forall iterators"""
+        txt = {"$K": "$k", "I": "i", "J": "j", "E": "e"}
+
+        def loop(v, route, body_txt, body_tr):
+            head = "for %s in 7 to 7 loop" % txt[v] if route == "normal" else "for %s in 1 to 3 loop" % txt[v]
+            tail = {"normal": ("", "U"), "break": (" break;", "U"), "return": (" return 0;", "T"), "error": (" x = 1/z;", "X")}[route]
+            return "%s %s print 1;%s end loop;" % (head, body_txt, tail[0]), ["F:" + v] + body_tr + [tail[1]]
+
+        def rprobe(v):
+            return "%s = h();" % txt[v], ["R:" + v]
+        routes = ("normal", "break", "return", "error")
+        out = []
+        for v in ("$K", "I"):
+            pre = ["$k = 0;"] if v == "$K" else []
+            pre_tr = [";"] * len(pre)
+            shapes = [("single", None, r, None) for r in routes]
+            shapes += [("same", v, ro, ri) for ro in routes for ri in routes]
+            shapes += [("other", "J", ro, ri) for ro in routes for ri in routes]
+            for shape, iv, ro, ri in shapes:
+                for probe in ("none", "inner", "after-inner", "after-all"):
+                    if shape == "single" and probe == "after-inner":
+                        continue
+                    bt, btr = "", []
+                    if shape != "single":
+                        ibt, ibtr = rprobe(v) if probe == "inner" else ("", [])
+                        bt, btr = loop(iv, ri, ibt, ibtr)
+                        if probe == "after-inner":
+                            pt, ptr_ = rprobe(v)
+                            bt, btr = bt + " " + pt, btr + ptr_
+                    elif probe == "inner":
+                        bt, btr = rprobe(v)
+                    lt, ltr = loop(v, ro, bt, btr)
+                    if probe == "after-all":
+                        pt, ptr_ = rprobe(v)
+                        lt, ltr = lt + " " + pt, ltr + ptr_
+                    units = [self.SF_H] + pre + ["z = 0; " + lt, '%s = "abc";' % txt[v], "%s = h();" % txt[v]]
+                    trace = [";"] + pre_tr + ltr + [";", "S:" + v, ";", "R:" + v, ";"]
+                    out.append(("%s/%s/%s-%s/%s" % (v, shape, ro, ri, probe), units, " ".join(trace)))
+        # forall iterators: a `$` variable (or a running for iterator) is refused as iterator; a plain iterator is free again afterwards
+        out.append(("forall/$K", [self.SF_H, "$k = 0;", "forall $k in tab(2, 0) loop print 1; end loop;", '$k = "abc";'],
+                    "; ; PERR33 ; S:$K ;"))
+        for r, tail, tk in (("normal", "", "U"), ("break", " break;", "U"), ("error", " x = 1/z;", "X"), ("return", " return 0;", "T")):
+            out.append(("forall/E/" + r, [self.SF_H, "z = 0; forall e in tab(2, 0) loop print 1;%s end loop;" % tail, 'e = "abc";'],
+                        "; A:E %s ; S:E ;" % tk))
+            out.append(("forall-in-for/" + r, [self.SF_H, "z = 0; for i in 1 to 3 loop forall e in tab(1, 0) loop print 1;%s end loop; i = h(); end loop;" % tail,
+                                               'i = "abc";'], "; F:I A:E %s R:I U ; S:I ;" % tk))
+        return out
+
+    def safety_cases(self, n0):
+        cases = []
+        n = n0
+        for tag, units, trace in self.safety_scenarios():
+            for mode in ("prog", "capi", "step"):
+                ops = ["new 0"]
+                for u in units:
+                    ops += ["%s 0 %s" % (mode, hx(u + "\n")), "dump 0"]
+                n += 1
+                cases.append(Case("f%d" % n, "sflag " + trace.replace("PERR33 ", ""), "|".join(ops),
+                                  {"family": "safety-loops", "tag": tag, "mode": mode, "units": units, "trace": trace}))
+        return cases
+
+    def judge_safety_loops(self, c, iraw, m, stderr):
+        st = self.stats.setdefault("safety_loops", {"cases": 0, "units": 0, "probes_set": 0, "probes_unset": 0})
+        st["cases"] += 1
+        self.distinct.add(("safety-loops", c.meta["tag"], c.meta["mode"]))
+        if iraw.startswith("crash") or iraw.endswith("diverges"):
+            return self.record_violation("crash in a loop / constraint scenario: %s" % " ".join(c.meta["units"]), c, iraw, m, stderr)
+        mm = re.match(r"p=(\S*) u=(\S+)$", m.get("model") or "")
+        if not mm:
+            return self.record_violation("unparsable answer of the flag machine", c, iraw, m)
+        probes, ubits = list(mm.group(1)), mm.group(2).split(",")
+        parts = iraw.split("|")[1:]
+        units = c.meta["units"]
+        toks = c.meta["trace"].split()
+        # replay the trace the way the driver does, unit by unit, to know what each unit is expected to answer
+        ui, k, pi = 0, 0, 0
+        # C API (docs/BLOC-C-API.md, bloc_reset_stop): the stop condition is HELD after a `return`; until the host resets it a later
+        # bloc_execute on the context compiles its text but runs nothing. The harness op `capi` does not reset: later units only parse.
+        held = False
+        while ui < len(units):
+            expect, skip = "ok", False
+            held_now = held
+            while toks[k] != ";":
+                t = toks[k]
+                k += 1
+                if skip:
+                    continue
+                if t == "PERR33":
+                    expect, skip = "perr 33", True
+                elif t[0] in "RS" and t[1] == ":":
+                    bit = probes[pi]
+                    pi += 1
+                    if t[0] == "R" and held_now:
+                        continue        # not executed
+                    st["probes_set" if bit == "1" else "probes_unset"] += 1
+                    if bit == "1":
+                        expect, skip = ("rerr 25" if t[0] == "R" else "perr 11"), True
+                elif t[0] == "A" and pi < len(probes) and probes[pi] == "r":
+                    pi += 1
+                    expect, skip = "rerr 4", True
+                elif t == "X":
+                    expect, skip = "rerr 23", True
+                elif t == "T":
+                    expect, skip = "ok", True
+                    held = c.meta["mode"] == "capi"
+            k += 1
+            got, dump = parts[2 * ui], parse_dump(parts[2 * ui + 1])
+            st["units"] += 1
+            self.tally(c, got, m)
+            where = "unit %d `%s` of [%s] (%s, %s)" % (ui + 1, units[ui], " | ".join(units), c.meta["tag"], c.meta["mode"])
+            if not (got.startswith(expect) if expect != "ok" else got.startswith("ok")):
+                prop = ""
+                if expect in ("rerr 25", "perr 11") and got.startswith("ok"):
+                    prop = " — the constrained variable accepted a value of another major type (property C02, third sentence)"
+                return self.record_violation("%s answers %s; the flag machine (Model/Safety.lean) predicts %s%s" % (where, got, expect, prop), c, got, m)
+            for j, name in enumerate(self.SF_NAMES):
+                sym = dump["syms"].get(name)
+                if sym is None:
+                    continue
+                want = "s%sl0" % ubits[ui][j]
+                if sym[1] != want:
+                    return self.record_violation("after %s the symbol %s carries flags %s; the flag machine (safety_restored_after_loop / "
+                                                 "dollar_constraint_survives_loops) says %s" % (where, name, sym[1], want), c, got, m)
+            ui += 1
+
     def gen_cases(self):
         quick = self.tier == "quick"
         cases = []
@@ -238,7 +401,7 @@ class C02(ProgCheck):
                     e1, s1, st1 = operand(v1, "x", k1)
                     e2, s2, st2 = operand(v2, "y", k2)
                     n += 1
-                    cases.append(self.node_case("c%d" % n, "op %s %s %s %s %s" % (opname, v1, v2, st1, st2), "%s %s %s" % (e1, optext, e2),
+                    cases.append(self.node_case("c%d" % n, "opk %s %s %s %s %s" % (opname, v1, v2, st1, st2), "%s %s %s" % (e1, optext, e2),
                                                 s1 + s2, {"family": "binop", "st": [st1, st2]}))
         for (opname, optext) in UNOPS:
             for (t1, v1) in VALS:
@@ -355,6 +518,10 @@ class C02(ProgCheck):
             src = "for k in 1 to 2 loop k = y; break; end loop;\n"
             cases.append(Case("c%d" % n, "", "|".join(["new 0", "set 0 %s %s" % (hx("Y"), v2), "prog 0 " + hx(src), "dump 0"]),
                               {"family": "iterator", "safety": ("i0", sty(v2)), "src": src}))
+        # (h) C02R3: the run-time safety flag around loops (Model/Safety.lean flag machine), every exit route, three paths
+        sc = self.safety_cases(n)
+        cases += sc
+        n += len(sc)
         self.stats["cases"] = n
         return cases
 
@@ -366,7 +533,9 @@ class C02(ProgCheck):
             return ProgCheck.judge(self, c, iraw, m, stderr)
         if fam and fam.startswith("fe"):
             return self.judge_fe_family(fam, c, iraw, m, stderr)
-        if fam in ("gen-binop", "gen-unop", "gen-member"):
+        if fam == "safety-loops":
+            return self.judge_safety_loops(c, iraw, m, stderr)
+        if fam in ("gen-binop", "gen-unop", "gen-member", "gen-member-arg"):
             return self.judge_gen(c, iraw, m, stderr)
         if iraw.startswith("crash") or iraw.endswith("diverges"):
             self.tally(c, iraw, m)
@@ -427,12 +596,19 @@ class C02(ProgCheck):
         if mr and not static.startswith("?"):
             rt = mr.group(1)
             if rt.split("{")[0].split("#")[0] != static.split("{")[0].split("#")[0]:
-                kf = "C02.static_vs_runtime." + c.model_line.split()[0] + "." + c.model_line.split()[1]
-                entry = next((f for f in self.findings if f["id"] == kf and f.get("status", "known") == "known"), None)
+                if fam == "binop":
+                    # C02R3: the region of C02.static_vs_runtime.op.<OP> is exact — the driver names it (KF/C02.lean `c02OpGap`, a function
+                    # of operator, static operand types, run-time operand types; Proofs/C02.lean static_eq_runtime_outside_kf_region)
+                    kf = m.get("kf")
+                else:
+                    kf = "C02.static_vs_runtime." + c.model_line.split()[0] + "." + c.model_line.split()[1]
+                entry = next((f for f in self.findings if f["id"] == kf and f.get("status", "known") == "known"), None) if kf else None
                 if entry:
                     self.known_hits.setdefault(kf, {"what": entry["what"], "example": c.meta["expr"] + " with operands " + " ".join(c.model_line.split()[2:]), "impl": ev})
                 else:
-                    return self.record_violation("`%s`: compile-time type %s but the value has type %s" % (c.meta["expr"], static, rt), c, ev, m)
+                    return self.record_violation("`%s` (static operand types %s): compile-time type %s but the value has type %s%s" % (
+                        c.meta["expr"], c.meta["st"], static, rt,
+                        " — outside the region of the recorded finding C02.static_vs_runtime.op.*" if fam == "binop" else ""), c, ev, m)
         # tie to the model: static type and (for operators) value
         if mout and mout.startswith("accept="):
             # bity: model gives acceptance + static type
@@ -448,6 +624,11 @@ class C02(ProgCheck):
         if mout.startswith("perr"):
             return self.record_violation("`%s` compiles, the model rejects it (%s)" % (c.meta["expr"], mout), c, ev, m)
         mty = m.get("note")
+        # C02R3: Expression::type() taken in parsing mode against the model's static rule (Typing.typeBin / typeUn; equal to the
+        # table regenerated from the operator's source by Proofs/C02G)
+        if mty and fam in ("binop", "unop") and mty.split("{")[0].split("#")[0] != static.split("{")[0].split("#")[0]:
+            return self.record_violation("`%s` (static operand types %s): Expression::type() is %s, the model's static rule says %s" % (
+                c.meta["expr"], c.meta["st"], static, mty), c, ev, m)
         got = rest.split(" rt=")[0]
         if not outcomes_agree(got, mout):
             return self.record_violation("`%s` evaluates to %s, the model gives %s" % (c.meta["expr"], got, mout), c, got, m)
@@ -543,6 +724,17 @@ class C02(ProgCheck):
         if not accepted and a == b and not (fam == "fe-forall"):
             return self.record_violation("%s: a constrained symbol of type %s refused a value of the same type (%s)" % (fam, a, outcome), c, outcome, m)
 
+    def extra_dump_checks(self, c, dump, m, outcome):
+        """+ C02R3 (Proofs/C02.lean safety_after_unit): once a run has returned to the host no loop is running, so every symbol
+        carries exactly the constraint its name gives it — safety bit set iff `$`-qualified, never locked"""
+        r = ProgCheck.extra_dump_checks(self, c, dump, m, outcome)
+        for name, (ty, flags, val) in dump["syms"].items():
+            want = "s%dl0" % (1 if name.startswith("$") else 0)
+            if flags != want:
+                return self.record_violation("after the run the symbol %s carries flags %s; between units every symbol carries %s "
+                                             "(safety_after_unit)" % (name, flags, want), c, outcome, m)
+        return r
+
     def write_evidence(self, extra=None):
         ex = dict(extra or {})
         if hasattr(self, "fe"):
@@ -556,6 +748,6 @@ class C02(ProgCheck):
         ml = (c.model_line or "").split()
         if len(ml) < 2:
             return None
-        fam = {"bity": "bi", "op": "op", "un": "un"}.get(ml[0])
+        fam = {"bity": "bi", "op": "op", "opk": "op", "un": "un"}.get(ml[0])
         kf = "C01.%s.%s.%s" % (fam, ml[1], crash_class(iraw))
         return kf if any(f["id"] == kf and f.get("status", "known") == "known" for f in load_findings()) else None
